@@ -62,6 +62,21 @@ def gen_spec(rng: random.Random):
     return spec
 
 
+def force(spec, history, rng):
+    """A consistent variant of `spec` with the given wrapper rename history and, when the group has a wrapper-only input,
+    an INNER binding of the first such input (the combination 'renamed + bound inside' must not depend on the dice)."""
+    v = dict(spec, history=history)
+    ext = list(spec["ext_only"])
+    v["inner_bind"] = dict(spec["inner_bind"])
+    if ext and ext[0] not in v["inner_bind"]:
+        v["inner_bind"][ext[0]] = dag.VALUES[0]
+    v["real_map"] = {p: f"{p}_r" for p in ext[:2]} if history == "real" else {}
+    v["outer_bind"] = {k: val for k, val in spec["outer_bind"].items() if k not in v["inner_bind"]}
+    eff = dict(spec["base"], bind={**v["inner_bind"], **spec["base"]["bind"], **v["outer_bind"]})
+    v["provided"] = dag.choose_provided(eff, rng)
+    return v
+
+
 def effective_flat(spec):
     """The flat program the nested one must equal: inner bindings, overridden by outer bindings of the same input."""
     base = spec["base"]
